@@ -78,7 +78,7 @@ not_applicable = [
     ("C20", "Property of compile-time generated programs (derive macro output x values); no run-time schedule, fault or history."),
 ]
 
-extra = json.load(open("manifest_extra.json")) if len(sys.argv) > 1 and sys.argv[1] == "--with-extra" else None
+extra = json.load(open("manifest_extra.json"))
 
 manifest = {
     "version": 1,
